@@ -213,9 +213,11 @@ func key(t *rapid.T) *recipe.Node {
 
 func dict(t *rapid.T, depth int) *recipe.Node {
 	n := rapid.IntRange(2, 12).Draw(t, "npairs")
-	if depth >= 2 && rapid.IntRange(0, 7).Draw(t, "bigdict") == 0 {
-		// a table of 64..200 pairs (a library may hand big tables to several workers)
+	if depth >= 2 && rapid.IntRange(0, 11).Draw(t, "bigdict") == 0 {
+		// a table of 64..200 pairs (a library may hand big tables to several workers); its values are flat
+		// (every level of nested Dict values doubles the cost of a render, see DESIGN 13)
 		n = rapid.IntRange(64, 200).Draw(t, "npairsbig")
+		depth = 0
 	}
 	var pairs []recipe.Pair
 	for i := 0; i < n; i++ {
